@@ -301,6 +301,8 @@ def run_canaries(w, st):
                   "requires_grad": True}
             rec = {"client": -1, "op_id": tag, "op": op, "kind": "call", "canary": True,
                    "family": inst_family, "recipe": recipe, "mod_dtype": dt, "retry": False}
+            if w.profile == "C16":
+                rec["state"] = {k: v.detach().clone() for k, v in mod.state_dict().items()}
             base, x = make_tensor(spec)
             x.requires_grad_(True)
             oc, val = _run(lambda: mod(x))
@@ -376,6 +378,25 @@ def check_c16(w, rec, st):
             xs = max(1e-30, max_abs(snap([rec["pyr"][0][0]] + [f[0] for f in rec["pyr"][1] if f is not None])))
         m = compare(rec["out_snap"], ref_snap, "tol", 1e-5, scale=max(max_abs(ref_snap), xs, 1e-30))
         st["compared_tol"] += 1
+        if not m and kind in ("call", "inverse") and rec.get("state") is not None:
+            # factor the float32 rounding of the filters out: a module
+            # constructed directly in this precision and *given the converted
+            # module's filter values* must agree bit for bit - whatever else
+            # the module holds (plain attributes, cached tensors) converted too
+            L = fresh(cur)
+            oc3, mod3 = _run(lambda: build_direct(L, rec["recipe"], cur))
+            if oc3 == "ok":
+                oc3, _ = _run(lambda: mod3.load_state_dict(
+                    {k: v.clone() for k, v in rec["state"].items()}))
+            if oc3 == "ok":
+                oc3, val3, _ = ref_apply(L, rec, mod3)
+                st["compared_same_filters"] = st.get("compared_same_filters", 0) + 1
+                if oc3 != "ok":
+                    m = "a module constructed in %s and given the same filter values gives %s" % (cur, oc3)
+                else:
+                    m = compare(rec["out_snap"], snap(val3), "bitwise")
+                    if m:
+                        m = "differs from a module constructed in %s holding the same filter values: %s" % (cur, m)
     else:
         m = compare(rec["out_snap"], ref_snap, "bitwise")
         st["compared_bitwise"] += 1
